@@ -1,12 +1,14 @@
 /-
 C13 — finished work is released.
-Model: task slabs of commands and of the executor, the bridge registry (M.Slab), `finishTask`, `execRunTask`, `resume`.
+Model: task slabs of commands and of the executor, the bridge registry (M.Slab), `finishTask`, `execRunTask`, `resume`;
+the process-wide cleared-timer set of the legacy Time capability (M.Timer `LWorld.cleared`, crux_time/src/lib.rs).
 -/
 import CruxVerif.Lemmas.CompleteS
 import CruxVerif.Lemmas.Bridge
 import CruxVerif.Lemmas.RtTask
 import CruxVerif.Lemmas.Resolve
 import CruxVerif.Lemmas.Occ
+import CruxVerif.Lemmas.Timer.ClearedSet
 namespace Props.C13
 open M M.Rt M.Bridge M.Slab
 
@@ -175,5 +177,65 @@ theorem charges_are_distinct (w : World) (c tid tid' s s' l : Nat) (h : (w.leaf 
   rw [h] at h'
   cases h'
   rfl
+
+/-! ### the cleared-timer set of the legacy Time capability (crux_time/src/lib.rs: `clear`, `TimerFuture`, `LIVE_TIMERS`)
+
+Before the repair `fix: forget a cleared timer id when no timer future can observe it` the statement below was false of the
+code and of its model: `start, answer, clear` left the id of the finished timer in the set for ever (harness case
+`lset A s0 f0 c0`, observation `c0/o` at every later step), so the set grew with the number of set / fire / clear cycles. -/
+
+open M.Timer Lemmas.Timer in
+/-- **THE CLEARED-TIMER SET IS BOUNDED BY THE OUTSTANDING TIMERS — over whole runs.** For every number of legacy timers,
+    every start value of the id counter and EVERY history of starts, clears (before, while and after the timer is
+    pending, repeated), shell answers (right, wrong id, wrong kind), dropped requests and idle core calls (while the id
+    counter does not wrap): every id the set remembers belongs to a timer that was started and whose task has not completed
+    (its `TimerFuture` is alive), the set holds no id twice, and so its size never exceeds the number of outstanding
+    timers — whatever the length of the history. -/
+theorem cleared_timer_set_bounded_by_outstanding_timers (counter : Nat) (kinds : List Kind) (steps : List (LAct × Nat))
+    (hb : counter + steps.length < 18446744073709551616) :
+    let w := lfinal (mkLWorld counter kinds) steps
+    (∀ x ∈ w.cleared, ∃ (j : Nat) (t : LTimer), w.timers[j]? = some t ∧ t.id = some x ∧ t.finished = false) ∧
+    w.cleared.Nodup ∧
+    w.cleared.length ≤ (w.timers.filter fun t => t.id.isSome && !t.finished).length := by
+  intro w
+  have hw : WInv w := winv_lfinal steps _ (winv_init counter kinds) hb
+  have hc : CB w := cb_lfinal steps _ (winv_init counter kinds) (cb_init counter kinds) hb
+  refine ⟨hc, hw.nodup, ?_⟩
+  exact Nat.le_trans (nodup_subset_length _ _ hw.nodup (cb_subset w hc)) (outstandingIds_length w)
+
+open M.Timer Lemmas.Timer in
+/-- once a timer's task has completed (it reported its outcome) its id is not in the set, in any later state: nothing of a
+    finished timer remains -/
+theorem finished_timer_is_forgotten (counter : Nat) (kinds : List Kind) (steps : List (LAct × Nat))
+    (hb : counter + steps.length < 18446744073709551616) (j : Nat) (t : LTimer) (id : Nat)
+    (ht : (lfinal (mkLWorld counter kinds) steps).timers[j]? = some t) (hid : t.id = some id) (hf : t.finished = true) :
+    id ∉ (lfinal (mkLWorld counter kinds) steps).cleared := by
+  intro hm
+  have hw : WInv (lfinal (mkLWorld counter kinds) steps) := winv_lfinal steps _ (winv_init counter kinds) hb
+  obtain ⟨j', t', ht', hid', hf'⟩ := cb_lfinal steps _ (winv_init counter kinds) (cb_init counter kinds) hb id hm
+  have := hw.distinct j' j t' t id ht' ht hid' hid
+  subst this
+  rw [ht] at ht'; cases ht'
+  rw [hf] at hf'; cases hf'
+
+open M.Timer Lemmas.Timer in
+/-- the same in an app that starts timers through BOTH APIs (one id counter, one set): the set stays within the outstanding
+    legacy timers; command-API timers never add to it -/
+theorem cleared_timer_set_bounded_mixed (counter : Nat) (kinds : List (Bool × Kind)) (steps : List (MAct × Nat))
+    (hb : counter + steps.length < 18446744073709551616) :
+    let w := (mfinal (mkMWorld counter kinds) steps).lw
+    (∀ x ∈ w.cleared, ∃ (j : Nat) (t : LTimer), w.timers[j]? = some t ∧ t.id = some x ∧ t.finished = false) ∧
+    w.cleared.length ≤ (w.timers.filter fun t => t.id.isSome && !t.finished).length := by
+  intro w
+  have hm : MInv (mfinal (mkMWorld counter kinds) steps) := minv_mfinal steps _ (minv_init counter kinds) hb
+  have hc : CB w := cb_mfinal steps _ (minv_init counter kinds) (cb_init counter _) hb
+  exact ⟨hc, Nat.le_trans (nodup_subset_length _ _ hm.lwinv.nodup (cb_subset w hc)) (outstandingIds_length w)⟩
+
+/-! non-vacuity (kernel evaluation of concrete histories): a clear while pending is remembered (the bound is tight) … -/
+example : (M.Timer.lfinal (M.Timer.mkLWorld 1 [.after]) [(.start, 0), (.clear, 0)]).cleared = [1] := by decide
+/-! … the timer's next poll empties the set … -/
+example : (M.Timer.lfinal (M.Timer.mkLWorld 1 [.after]) [(.start, 0), (.clear, 0), (.resolveReq .good, 0)]).cleared = [] := by decide
+/-! … and the history that used to leak (start, answer, clear) leaves nothing behind -/
+example : (M.Timer.lfinal (M.Timer.mkLWorld 1 [.after]) [(.start, 0), (.resolveReq .good, 0), (.clear, 0)]).cleared = [] := by decide
 
 end Props.C13
